@@ -29,6 +29,175 @@ ENGINES = {
 }
 
 SPECS = {}
+
+# Every kind of operation an engine knows must actually be drawn (a weight table that silently pushes an operation out of
+# the draw is a blind spot that no violation reveals): minimum counts per operation, a hundredth of what a quick run sees.
+OP_MINIMUMS = {
+ "C04": {
+  "opCount.compare": 1406,
+  "opCount.construct": 1367,
+  "opCount.construct-ilist": 584,
+  "opCount.copy-assign-onto-empty": 230,
+  "opCount.copy-assign-onto-moved-from": 837,
+  "opCount.copy-assign-onto-nonempty": 870,
+  "opCount.copy-assign-self": 1291,
+  "opCount.copy-construct": 1207,
+  "opCount.destroy": 2852,
+  "opCount.destroy-moved-from": 1215,
+  "opCount.emplace-default": 620,
+  "opCount.emplace-default-overwrite": 197,
+  "opCount.emplace-two-args": 649,
+  "opCount.emplace-two-args-overwrite": 227,
+  "opCount.index-write": 2874,
+  "opCount.iterator": 1327,
+  "opCount.move-assign": 1144,
+  "opCount.move-assign-onto-moved-from": 873,
+  "opCount.move-assign-self": 260,
+  "opCount.move-construct": 907,
+  "opCount.pop_back": 5163,
+  "opCount.pop_front": 5156,
+  "opCount.push_back": 7873,
+  "opCount.push_back-alias": 658,
+  "opCount.push_back-alias-overwrite": 346,
+  "opCount.push_back-overwrite": 2496,
+  "opCount.push_front": 6212,
+  "opCount.push_front-alias": 652,
+  "opCount.push_front-alias-overwrite": 348,
+  "opCount.push_front-overwrite": 1979,
+  "opCount.resize-cut": 440,
+  "opCount.resize-cut-offset": 99,
+  "opCount.resize-cut-wrapped": 466,
+  "opCount.resize-grow": 1311,
+  "opCount.resize-same": 2334,
+  "opCount.resize-shrink": 1070
+ },
+ "C05": {
+  "opCount.destroy-subject": 638,
+  "opCount.handle-move": 2765,
+  "opCount.invalidate": 2765,
+  "opCount.mute": 2769,
+  "opCount.notify": 9624,
+  "opCount.stale-handle": 4145,
+  "opCount.subscribe": 9243,
+  "opCount.unmute": 2417,
+  "opCount.unsubscribe": 3116
+ },
+ "C06": {
+  "opCount.invalidate": 239,
+  "opCount.mute": 171,
+  "opCount.notify": 1599,
+  "opCount.probe-notify": 3747,
+  "opCount.shrink": 624,
+  "opCount.subscribe": 1172,
+  "opCount.unmute": 138,
+  "opCount.unsubscribe": 414
+ },
+ "C09": {
+  "opCount.construct": 560,
+  "opCount.construct-ilist": 239,
+  "opCount.copy-assign-onto-empty": 713,
+  "opCount.copy-assign-onto-moved-from": 248,
+  "opCount.copy-assign-onto-nonempty": 2944,
+  "opCount.copy-assign-self": 3229,
+  "opCount.copy-construct": 1298,
+  "opCount.destroy": 2347,
+  "opCount.destroy-moved-from": 74,
+  "opCount.emplace-default": 593,
+  "opCount.emplace-default-overwrite": 222,
+  "opCount.emplace-two-args": 1592,
+  "opCount.emplace-two-args-overwrite": 592,
+  "opCount.index-write": 2944,
+  "opCount.move-construct": 322,
+  "opCount.pop_back": 5312,
+  "opCount.pop_front": 5287,
+  "opCount.push_back": 7541,
+  "opCount.push_back-alias": 613,
+  "opCount.push_back-alias-overwrite": 406,
+  "opCount.push_back-overwrite": 2808,
+  "opCount.push_front": 5960,
+  "opCount.push_front-alias": 615,
+  "opCount.push_front-alias-overwrite": 407,
+  "opCount.push_front-overwrite": 2221,
+  "opCount.resize-cut": 920,
+  "opCount.resize-cut-offset": 155,
+  "opCount.resize-cut-wrapped": 762,
+  "opCount.resize-grow": 2556,
+  "opCount.resize-same": 4850,
+  "opCount.resize-shrink": 1782
+ },
+ "C10": {
+  "inRoundActionKinds.invalidate-other": 375,
+  "inRoundActionKinds.invalidate-self": 619,
+  "inRoundActionKinds.mute": 708,
+  "inRoundActionKinds.nested-notify": 966,
+  "inRoundActionKinds.subscribe": 1445,
+  "inRoundActionKinds.throw": 291,
+  "inRoundActionKinds.unmute": 565,
+  "inRoundActionKinds.unsubscribe-not-yet-called": 411,
+  "inRoundActionKinds.unsubscribe-other": 389,
+  "inRoundActionKinds.unsubscribe-self": 1322,
+  "opCount.destroy-subject": 637,
+  "opCount.handle-move": 1267,
+  "opCount.invalidate": 1274,
+  "opCount.mute": 1268,
+  "opCount.notify": 4763,
+  "opCount.stale-handle": 1897,
+  "opCount.subscribe": 5428,
+  "opCount.unmute": 1105,
+  "opCount.unsubscribe": 1429
+ },
+ "C13": {
+  "opCount.invalidate": 157,
+  "opCount.mute": 115,
+  "opCount.notify": 807,
+  "opCount.probe-notify": 3967,
+  "opCount.shrink": 661,
+  "opCount.subscribe": 775,
+  "opCount.unmute": 89,
+  "opCount.unsubscribe": 273
+ },
+ "C14": {
+  "opCount.construct-default": 421,
+  "opCount.construct-ilist": 1786,
+  "opCount.construct-ptr-adopt": 498,
+  "opCount.construct-ptr-copy": 2975,
+  "opCount.construct-size": 1355,
+  "opCount.construct-size-value": 1446,
+  "opCount.copy-assign": 2005,
+  "opCount.copy-assign-onto-moved-from": 605,
+  "opCount.copy-assign-self": 1671,
+  "opCount.copy-construct": 1519,
+  "opCount.destroy": 9335,
+  "opCount.destroy-moved-from": 1675,
+  "opCount.element-write": 6145,
+  "opCount.move-assign": 1273,
+  "opCount.move-assign-onto-moved-from": 381,
+  "opCount.move-construct": 1006,
+  "opCount.resize-grow": 2271,
+  "opCount.resize-shrink": 1486,
+  "opCount.resize-value-grow": 2062,
+  "opCount.resize-value-shrink": 1345,
+  "opCount.swap": 2341
+ },
+ "C16": {
+  "opCount.*=": 2915,
+  "opCount.++pre": 1467,
+  "opCount.+=": 5269,
+  "opCount.--pre": 1468,
+  "opCount.-=": 3658,
+  "opCount./=": 2560,
+  "opCount.apply": 5699,
+  "opCount.assign-changing": 6262,
+  "opCount.assign-equal": 4696,
+  "opCount.assign-other-type": 3073,
+  "opCount.compound-other-type": 1827,
+  "opCount.post++": 1464,
+  "opCount.post--": 1456,
+  "opCount.subscribe": 2858,
+  "opCount.unsubscribe": 1083
+ }
+}
+
 NOT_APPLICABLE = {}   # property -> reason (only for properties this family cannot decide)
 
 
@@ -636,3 +805,7 @@ SPECS['C15'] = dict(
                   'from the log (halt_on_error=0) and keyed by the conflicting tulz frames.',
                   note='Limited to reached code and to TSan\'s detection power; harness-side shared state is atomic so that the monitor is not the race.',
                   technique='sanitizer: ThreadSanitizer (happens-before race detection) over intended-use stress workloads'))
+
+
+for _p, _m in OP_MINIMUMS.items():
+    SPECS[_p].setdefault('require', {}).setdefault('any', {}).update(_m)
